@@ -145,6 +145,11 @@ class Program:
                 from . import normast
                 normast.canon_module(tree)
             self.modules[name] = tree
+            try:
+                from . import normast as _nm
+                _nm.SIBLINGS[name] = tree
+            except Exception:
+                pass
             self.sources[name] = src
             self.paths[name] = os.path.relpath(path, repo)
             self.funcs[name] = {n.name: n for n in tree.body if isinstance(n, ast.FunctionDef)}
@@ -153,6 +158,18 @@ class Program:
             for n in tree.body:
                 if isinstance(n, ast.Assign) and len(n.targets) == 1 and isinstance(n.targets[0], ast.Name):
                     self.assigns[name][n.targets[0].id] = n.value
+            # names imported from sibling modules: `from formak.common import helper [as h]` / `from formak import common [as c]`
+            self.imports = getattr(self, "imports", {})
+            self.imports[name] = {}
+            for n in tree.body:
+                if isinstance(n, ast.ImportFrom) and n.module and n.module.split(".")[0] == "formak":
+                    parts = n.module.split(".")
+                    for a in n.names:
+                        local = a.asname or a.name
+                        if len(parts) == 1:
+                            self.imports[name][local] = ("module", a.name)
+                        else:
+                            self.imports[name][local] = ("name", parts[-1], a.name)
 
     def method(self, module, cls, name) -> Optional[ast.FunctionDef]:
         c = self.classes[module].get(cls)
@@ -194,6 +211,7 @@ class Interp:
         self.notes: List[str] = []
         self.undecided_sites: List[Any] = []
         self.calls: List[Any] = []          # (callee qualified name, arg values, where) for repo-method calls
+        self.divmods: Dict[int, Any] = {}   # loop id of an enumerate(flat) -> (row, stride, col) produced by divmod(position, stride)
         self.modenv: Dict[str, Env] = {}
         self.opaque: Dict[str, str] = {}     # qualified method name -> atom name given to its (array) result
         self.events: List[Any] = []          # stores to attributes / attribute containers and returns, in evaluation order
@@ -312,7 +330,17 @@ class Interp:
             if isinstance(idx, ast.Tuple) and len(idx.elts) == 2:
                 r = self.ev(idx.elts[0], env)
                 c = self.ev(idx.elts[1], env)
-                self.array_store(obj, r, c, v, env, stmt)
+            else:
+                key = self.ev(idx, env)
+                if not (isinstance(key, TupleV) and len(key.items) == 2):
+                    return
+                r, c = key.items
+            if isinstance(v, tuple) and v and v[0] == "FLATELEM":
+                # the entry at flat position k, stored at divmod(k, C): the same as flat[row*C + col]
+                dm = self.divmods.get(v[2])
+                if dm is not None and dm[0] == r and dm[2] == c:
+                    v = ("FLATREAD", v[1], LinIdx(dm[0], dm[1], dm[2]))
+            self.array_store(obj, r, c, v, env, stmt)
             return
         if isinstance(obj, ObjV) and obj.cls == "dict":
             key = self.ev(idx, env)
@@ -387,7 +415,8 @@ class Interp:
         if isinstance(t, ast.Compare) and len(t.ops) == 1 and isinstance(t.ops[0], (ast.Is, ast.IsNot)) \
                 and isinstance(t.comparators[0], ast.Constant) and t.comparators[0].value is None and isinstance(t.left, ast.Name):
             v = env.vars.get(t.left.id)
-            if v is not None and not isinstance(v, (Unknown, Join)):
+            opaque = isinstance(v, Const) and isinstance(v.value, tuple) and v.value[:1] == ("config",)     # a user setting: may be None
+            if v is not None and not isinstance(v, (Unknown, Join)) and not opaque:
                 is_none = isinstance(v, Const) and v.value is None
                 take_body = is_none if isinstance(t.ops[0], ast.Is) else not is_none
                 self.ex_block(s.body if take_body else s.orelse, env)
@@ -485,6 +514,10 @@ class Interp:
             return acc
         if isinstance(it, SeqV):
             return self.seq_elem(it, lid)
+        if isinstance(it, tuple) and it and it[0] == "ENUM" and isinstance(unwrap_elem(it[1]), FlatV) and it[2] == 0:
+            # for k, v in enumerate(flat): k is the flat position, v the entry there (divmod(k, C) recovers row and column)
+            flat = unwrap_elem(it[1])
+            return TupleV((("FLATIDX", lid, flat), ("FLATELEM", flat, lid)))
         if isinstance(it, tuple) and it and it[0] == "ENUM":
             inner = it[1]
             start = it[2]
@@ -603,6 +636,10 @@ class Interp:
             if any(ast.unparse(b).split(".")[-1] == "NamedTuple" for b in cn.bases):
                 # class X(NamedTuple): a: T; b: T  -- a namedtuple with the annotated fields in order
                 return NTClsV(n.id, tuple(a.target.id for a in cn.body if isinstance(a, ast.AnnAssign) and isinstance(a.target, ast.Name)))
+            if any("dataclass" in ast.unparse(d) for d in cn.decorator_list) and not any(isinstance(m_, ast.FunctionDef) and m_.name in ("__init__", "__post_init__")
+                                                                                           for m_ in cn.body) and not cn.bases:
+                # a plain record: @dataclass class X: a: T; b: T  (methods / properties allowed) -- built like a namedtuple, read by field name
+                return NTClsV(n.id, tuple(a.target.id for a in cn.body if isinstance(a, ast.AnnAssign) and isinstance(a.target, ast.Name)))
             return ClassV(mod, n.id)
         if n.id in self.p.assigns.get(mod, {}):
             menv = self.modenv.setdefault(mod, Env(mod))
@@ -610,6 +647,18 @@ class Interp:
                 menv.vars[n.id] = Unknown("recursive module assign")
                 menv.vars[n.id] = self.ev(self.p.assigns[mod][n.id], menv)
             return menv.vars[n.id]
+        imp = getattr(self.p, "imports", {}).get(mod, {}).get(n.id)
+        if imp is not None:
+            if imp[0] == "module" and imp[1] in self.p.modules:
+                return ModuleV(imp[1])
+            if imp[0] == "name" and imp[1] in self.p.modules:
+                m2, nm = imp[1], imp[2]
+                if nm in self.p.funcs.get(m2, {}):
+                    return FuncV(self.p.funcs[m2][nm], m2)
+                if nm in self.p.classes.get(m2, {}):
+                    return self.ev_Name(ast.Name(nm, ast.Load()), Env(m2))
+                if nm in self.p.assigns.get(m2, {}):
+                    return self.ev_Name(ast.Name(nm, ast.Load()), Env(m2))
         if n.id in ("sqrt", "floor", "ceil", "fabs"):
             return Const(("math", n.id))
         if n.id == "namedtuple":
@@ -701,6 +750,18 @@ class Interp:
             return base
         if isinstance(base, TupleV) and attr in base.names:
             return base.items[base.names.index(attr)]
+        if isinstance(base, TupleV) and base.ntname:
+            # a property / method of the record class
+            for mname, cs in self.p.classes.items():
+                cn = cs.get(base.ntname)
+                if cn is None:
+                    continue
+                meth = next((m_ for m_ in cn.body if isinstance(m_, ast.FunctionDef) and m_.name == attr), None)
+                if meth is not None:
+                    decos = {ast.unparse(d) for d in meth.decorator_list}
+                    if "property" in decos:
+                        return self.call_func(FuncV(meth, mname, base, base.ntname), [], {}, env, node)
+                    return FuncV(meth, mname, base, base.ntname)
         if isinstance(base, ConfigV):
             return Const(("config", attr))
         return ("BOUND", base, attr)
@@ -910,11 +971,21 @@ class Interp:
                 if isinstance(lo, tuple) and lo and lo[0] == "SCALED" and isinstance(hi, tuple) and hi and hi[0] == "SCALEDOFF" \
                         and hi[1] == lo[1] and hi[2] == lo[2]:
                     return ("FLATROW", base, lo[1], lo[2], hi[3])      # flat[row*S : row*S + width]
+                if isinstance(lo, tuple) and lo and lo[0] == "SCALED" and isinstance(hi, tuple) and hi and hi[0] == "SCALED" and hi[2] == lo[2] \
+                        and isinstance(lo[1], IdxV) and isinstance(hi[1], IdxV) and hi[1].loop == lo[1].loop and hi[1].layout == lo[1].layout \
+                        and hi[1].offset == lo[1].offset + 1 and isinstance(lo[2], SizeV):
+                    return ("FLATROW", base, lo[1], lo[2], lo[2])      # flat[row*S : (row+1)*S]: one whole row
                 return Unknown("flat slice")
             i = self.ev(sl, env)
             if isinstance(i, LinIdx):
                 return ("FLATREAD", base, i)
             return Unknown("flat index")
+        if isinstance(base, tuple) and base and base[0] == "FLATROW" and isinstance(sl, ast.Slice) and sl.step is None and sl.lower is None \
+                and sl.upper is not None:
+            hi = self.ev(sl.upper, env)
+            if isinstance(hi, SizeV):
+                return ("FLATROW", base[1], base[2], base[3], hi)      # the leading `hi` entries of the row
+            return Unknown("row slice")
         if isinstance(base, SeqV):
             if isinstance(sl, ast.Slice):
                 return self.slice_seq(base, sl, env)
@@ -1133,6 +1204,13 @@ class Interp:
             if isinstance(a0, Const) and isinstance(a0.value, int):
                 return ("RANGE", SizeV.const(a0.value))
             return ("RANGE", Unknown("range arg"))
+        if name == "divmod" and len(args) == 2 and isinstance(args[0], tuple) and args[0] and args[0][0] == "FLATIDX" and isinstance(args[1], (SizeV, Const)):
+            _, lid0, flat = args[0]
+            stride = args[1] if isinstance(args[1], SizeV) else (SizeV.const(args[1].value) if isinstance(args[1].value, int) else Unknown("stride"))
+            rows = flat.rows.size() if isinstance(flat.rows, Layout) else Unknown("rows")
+            row, col = IdxV(lid0, Dim(rows)), IdxV(next(self.loop_ids), Dim(stride))
+            self.divmods[lid0] = (row, stride, col)
+            return TupleV((row, col))
         if name == "product":
             # itertools.product(range(R), range(C)): (row, col) pairs in row-major order
             if len(args) == 2 and all(isinstance(a, tuple) and a and a[0] == "RANGE" for a in args) and not kwargs:
@@ -1594,7 +1672,7 @@ def _jac_check(self, yields, env, n):
 
 Interp.check_cpp_statements = _jac_check
 
-BUILTINS = {"product", "reversed", "sorted", "list", "set", "len", "range", "enumerate", "zip", "str", "float", "dict", "isinstance", "print", "abs", "min", "max", "any", "all", "int", "tuple", "type", "iter", "map", "filter", "locals"}
+BUILTINS = {"divmod", "product", "reversed", "sorted", "list", "set", "len", "range", "enumerate", "zip", "str", "float", "dict", "isinstance", "print", "abs", "min", "max", "any", "all", "int", "tuple", "type", "iter", "map", "filter", "locals"}
 
 
 def to_scalar(v):
